@@ -176,8 +176,9 @@ def ref_world():
     from pydbml.classes import Column, Table
     db = Database()
     tabs = []
-    for n in ('a', 'b', 'c'):
-        t = Table(n, schema='public' if n != 'c' else 's1')
+    # the 4th and 5th tables share their names with the first two but live in another schema
+    for n, sch in (('a', 'public'), ('b', 'public'), ('c', 's1'), ('a', 's1'), ('b', 'other')):
+        t = Table(n, schema=sch)
         for cn in ('x', 'y', 'z'):
             t.add_column(Column(cn, 'int'))
         db.add(t)
@@ -188,7 +189,7 @@ def ref_world():
 def ref_cells():
     from pydbml.classes import Column, Reference
     for kind, arity, inline, fault, history in itertools.product(['>', '<', '-', '<>'], [1, 2], [False, True],
-                                                                   ['detached1', 'detached2', 'mixed1', 'mixed2', 'inline_composite', 'none'],
+                                                                   ['detached1', 'detached2', 'mixed1', 'mixed2', 'mixed1s', 'mixed2s', 'inline_composite', 'none'],
                                                                    ['constructed', 'edited']):
         if fault == 'inline_composite' and not (inline and arity == 2 and kind != '<>'):
             continue
@@ -199,7 +200,9 @@ def ref_cells():
         cell = f'ref/{kind}/{arity}/{"inline" if inline else "standalone"}/{fault}/{history}'
 
         def b(kind=kind, arity=arity, inline=inline, fault=fault, history=history):
-            db, (a, bb, c) = ref_world()
+            db, (a, bb, c, a_s1, b_other) = ref_world()
+            same = fault.endswith('s')      # mix with the same-named table of another schema
+            fault = fault.rstrip('s') if fault.startswith('mixed') else fault
             col1 = a.columns[:arity]
             col2 = bb.columns[:arity]
             loose = Column('loose', 'int')
@@ -209,9 +212,9 @@ def ref_cells():
                 elif fault == 'detached2':
                     col2 = col2[:-1] + [loose]
                 elif fault == 'mixed1':
-                    col1 = [a.columns[0], c.columns[1]]
+                    col1 = [a.columns[0], (a_s1 if same else c).columns[1]]
                 elif fault == 'mixed2':
-                    col2 = [bb.columns[0], c.columns[1]]
+                    col2 = [bb.columns[0], (b_other if same else c).columns[1]]
             r = Reference(kind, col1, col2, inline=inline, name='r1')
             db.add(r)
             if history == 'edited':
@@ -221,10 +224,12 @@ def ref_cells():
                     bb.delete_column(r.col2[-1])
                 elif fault == 'mixed1':
                     moved = a.delete_column(r.col1[-1])
-                    c.add_column(moved)
+                    moved.name = 'moved'
+                    (a_s1 if same else c).add_column(moved)
                 elif fault == 'mixed2':
                     moved = bb.delete_column(r.col2[-1])
-                    c.add_column(moved)
+                    moved.name = 'moved'
+                    (b_other if same else c).add_column(moved)
             out = []
             if fault.startswith('detached'):
                 out += [('ref.sql', lambda: r.sql, 'TableNotFoundError'), ('ref.dbml', lambda: r.dbml, 'TableNotFoundError')]
